@@ -1,7 +1,7 @@
 from engine import Query
 META = {}
 H = 'C08_stringify.cpp'
-B = {'Dispose': 4, 'Copy': 80, 'SetToZero': 80, 'vf_mem.*': 80, 'Count': 4, 'Escape': 3, 'Write': 8, 'IntToString': 3, 'h_.*|add_member|exp_uint': 4,
+B = {'Hash|find|generateHash|resize|Remove|remove': 8, 'Dispose': 4, 'Copy': 80, 'SetToZero': 80, 'vf_mem.*': 80, 'Count': 4, 'Escape': 3, 'Write': 8, 'IntToString': 3, 'h_.*|add_member|exp_uint': 4,
      'Initialize': 4, 'stringifyArray': 4}
 STN = '_ZN6Qentem5Digit14stringToNumberIcEENS_11QNumberTypeERNS_9QNumber64EPKT_Rjj'
 def QA(n, e1=5, e2=5, ln=1, root=0):
@@ -11,7 +11,7 @@ def QA(n, e1=5, e2=5, ln=1, root=0):
 def queries(tier):
     q = tier == 'quick'
     qs = [QA(0), QA(0, root=1)]
-    kinds = [0, 20, 10, 8, 9, 5, 6, 4, 3, 31, 1, 14]
+    kinds = [0, 20, 10, 8, 9, 5, 6, 4, 3, 31, 2, 21, 1, 14]
     for e in kinds:
         for ln in ((0, 1, 2) if e in (4, 14) else (1,)):
             qs.append(QA(1, e, ln=ln))
@@ -20,12 +20,32 @@ def queries(tier):
         for e2 in k2:
             qs.append(QA(2, e1, e2, ln=(1 if q else 2)))
     qs.append(QA(2, 5, 20, root=1)); qs.append(QA(1, 4, ln=2, root=1))
+    # object roots
+    def QO(n, e1=5, e2=5, k1=1, k2=2, ln=1, root=0):
+        name = 'object/n%d' % n + ('/k%d.e%d' % (k1, e1) if n > 0 else '') + ('/k%d.e%d' % (k2, e2) if n > 1 else '') + ('/len%d' % ln if 4 in (e1, e2) else '') + ('/ptr-root' if root else '')
+        return Query(name, H, 'h_object', {'N': n, 'E1': e1, 'E2': e2, 'K1': k1, 'K2': k2, 'LEN': ln, 'ROOT': root}, bounds=B, default_unwind=4, default_rec=3,
+                     timeout=300, mem_gb=8, leak=True)
+    qs += [QO(0), QO(0, root=1)]
+    okinds = [0, 20, 10, 8, 9, 5, 6, 4, 3, 31, 2, 21, 1]
+    for e in okinds:
+        for k in ((1, 4) if e in (5, 20) or not q else (1,)): qs.append(QO(1, e, k1=k, ln=2))
+    for k in (0, 3): qs.append(QO(1, 5, k1=k))
+    ok2 = [0, 20, 10, 5, 4, 2] if q else okinds
+    for e1 in ok2:
+        for e2 in ok2:
+            qs.append(QO(2, e1, e2, ln=1))
+    qs += [QO(2, 5, 20, k1=4, k2=0), QO(2, 20, 5, k1=3, k2=4), QO(2, 5, 20, root=1), QO(2, 8, 20, k1=2, k2=1)]
     for k in (10, 8, 9, 5, 6, 7, 4):
         qs.append(Query('scalar-root/k%d' % k, H, 'h_scalar_root', {'K': k, 'LEN': 2}, bounds=B, default_unwind=4, default_rec=3, timeout=300, mem_gb=8, leak=True))
     for n in (0, 1, 2):
         qs.append(Query('real-stream/n%d' % n, H, 'h_real_stream', {'N': n}, bounds=B, default_unwind=4, default_rec=3, timeout=300, mem_gb=8, leak=True))
-    for e1, e2 in ((10, 8), (0, 9), (3, 20), (20, 0), (3, 3)):
-        qs.append(Query('roundtrip/n2/e%d/e%d' % (e1, e2), H, 'h_roundtrip', {'N': 2, 'E1': e1, 'E2': e2}, bounds=dict(B, **{'TrimLeft': 3, 'parseArray': 4, 'UnEscape': 3}),
-                        default_unwind=4, rec_bounds={'parse.*': 3}, default_rec=3, timeout=300, mem_gb=8, leak=True))
-    qs.append(Query('roundtrip/n0', H, 'h_roundtrip', {'N': 0}, bounds=dict(B, **{'TrimLeft': 3, 'parseArray': 4}), default_unwind=4, rec_bounds={'parse.*': 3}, default_rec=3, timeout=300, mem_gb=8, leak=True))
+    BR = dict(B, **{'TrimLeft': 3, 'parseArray|parseObject': 4, 'UnEscape': 4, 'stringToNumber|parseExponent': 4, 'IsEqual': 4, 'Insert': 3})
+    def QR(n, e1=10, e2=10, obj=0, k1=1, k2=2, ln=1):
+        name = 'roundtrip/%s/n%d' % ('object' if obj else 'array', n) + ('/e%d' % e1 if n > 0 else '') + ('/e%d' % e2 if n > 1 else '') + ('/k%d.%d' % (k1, k2) if obj and n else '')
+        return Query(name, H, 'h_roundtrip', {'N': n, 'E1': e1, 'E2': e2, 'RT_OBJ': obj, 'K1': k1, 'K2': k2, 'LEN': ln}, bounds=BR, default_unwind=4,
+                     rec_bounds={'parse.*': 3}, default_rec=3, timeout=300, mem_gb=8, leak=True)
+    qs += [QR(0), QR(0, obj=1)]
+    for e1, e2 in ((10, 8), (0, 9), (3, 20), (20, 0), (3, 3), (2, 10), (5, 10), (10, 5), (6, 5), (4, 10), (21, 31)):
+        qs.append(QR(2, e1, e2)); qs.append(QR(2, e1, e2, obj=1))
+    qs.append(QR(2, 5, 20, obj=1, k1=4, k2=0))
     return qs
